@@ -12,23 +12,29 @@
 (* operations is a behaviour of the model.  The verdict also carries what    *)
 (* the model predicts for every worker and for the store, and the ghost      *)
 (* flags that tell which deviation was involved.                             *)
+(* Journal mode (conformance item, never part of `bad`): a "script" event    *)
+(* may carry the journal mode the harness read from the header of the file   *)
+(* at the database path right after the operation (field jm: "wal", "del",   *)
+(* "" = not observed); it is compared with the mode the model gives the      *)
+(* file after Script and differences are collected in `obs`.                 *)
 EXTENDS Naturals, Sequences, FiniteSets, TLC, Json, IOUtils
 
 TraceFile == JsonDeserialize(IOEnv.TRACE_FILE)
 Traces == TraceFile.traces
 T_Procs == 1..TraceFile.maxprocs
 T_Dev == {"RestoreRaceOnStartup", "BootstrapUnderSnapshot", "BootcheckNeverHits"}
-ScnOf(t) == [bak |-> Traces[t].scn.bak, boot |-> Traces[t].scn.boot, cursor |-> Traces[t].scn.cursor, drv |-> Traces[t].scn.drv]
+ScnOf(t) == [bak |-> Traces[t].scn.bak, boot |-> Traces[t].scn.boot, cursor |-> Traces[t].scn.cursor, drv |-> Traces[t].scn.drv,
+             prov |-> Traces[t].scn.prov, rdr |-> Traces[t].scn.rdr]
 T_Scn == {ScnOf(t) : t \in 1..Len(Traces)}
 
-VARIABLES scn, pmain, pbak, ino, wlock, pc, conn, snap, saw, res, chk, raced, snapfail, opn, life, tid, used, bad
+VARIABLES scn, pmain, pbak, ino, wlock, pc, conn, snap, saw, res, chk, raced, snapfail, opn, life, tid, used, bad, obs
 W == INSTANCE Workers WITH Procs <- T_Procs, Dev <- T_Dev, Scenarios <- T_Scn
 wvars == <<scn, pmain, pbak, ino, wlock, pc, conn, snap, saw, res, chk, raced, snapfail, opn, life>>
-tvars == <<scn, pmain, pbak, ino, wlock, pc, conn, snap, saw, res, chk, raced, snapfail, opn, life, tid, used, bad>>
+tvars == <<scn, pmain, pbak, ino, wlock, pc, conn, snap, saw, res, chk, raced, snapfail, opn, life, tid, used, bad, obs>>
 
 Events == Traces[tid].events
 
-TInit == /\ W!Init /\ tid \in 1..Len(Traces) /\ scn = ScnOf(tid) /\ used = {} /\ bad = <<>>
+TInit == /\ W!Init /\ tid \in 1..Len(Traces) /\ scn = ScnOf(tid) /\ used = {} /\ bad = <<>> /\ obs = <<>>
 
 ClsOf(lab) ==
   CASE lab = "exists" -> "exists" [] lab = "unlink" -> "unlink" [] lab = "rename" -> "rename"
@@ -53,6 +59,7 @@ ModelResult(p) ==
     [] lab \in {"read1", "read2"} -> ReadResult(p)
     [] lab = "bootcheck" -> IF W!BootFound(p) THEN "yes" ELSE "no"
     [] lab = "insert" -> IF W!InsertFails(p) THEN "locked" ELSE "ok"
+    [] lab = "commit" -> IF W!RollbackBlocked(p) THEN "locked" ELSE "ok"
     [] OTHER -> "ok"
 
 Same(real, model) == real = model \/ (real = "none" /\ model \in {"M", "B"})
@@ -69,7 +76,14 @@ Note(i, why, exp) ==
   bad' = Append(bad, [i |-> i, p |-> e.p, cls |-> e.cls, r |-> e.r, why |-> why, expected |-> exp,
                       raced |-> raced, snapfail |-> snapfail, life |-> life])
 
-ConsumeClean(i) == Ready(i) /\ Clean(i) /\ W!Step(Events[i].p) /\ bad' = bad /\ used' = used \cup {i}
+\* to be used after W!Step(Events[i].p): the mode of the file the process is connected to
+JmObs(i) ==
+  LET e == Events[i] IN
+  IF e.cls = "script" /\ e.jm # "" /\ conn'[e.p] # 0 /\ e.jm # ino'[conn'[e.p]].jm
+  THEN obs' = Append(obs, [i |-> i, p |-> e.p, seen |-> e.jm, model |-> ino'[conn'[e.p]].jm])
+  ELSE obs' = obs
+
+ConsumeClean(i) == Ready(i) /\ Clean(i) /\ W!Step(Events[i].p) /\ JmObs(i) /\ bad' = bad /\ used' = used \cup {i}
 
 ConsumeBad ==
   /\ used # Idx /\ \A i \in Idx : Ready(i) => ~Clean(i)
@@ -78,10 +92,10 @@ ConsumeBad ==
          p == e.p IN
      /\ used' = used \cup {i}
      /\ IF ClsAt(p) # e.cls
-        THEN Note(i, "operation not expected here", LabAt(p)) /\ UNCHANGED wvars
+        THEN Note(i, "operation not expected here", LabAt(p)) /\ UNCHANGED wvars /\ obs' = obs
         ELSE IF ~ENABLED W!Step(p)
-        THEN Note(i, "step not enabled in the model", LabAt(p)) /\ UNCHANGED wvars
-        ELSE W!Step(p) /\ Note(i, "result differs", ModelResult(p))
+        THEN Note(i, "step not enabled in the model", LabAt(p)) /\ UNCHANGED wvars /\ obs' = obs
+        ELSE W!Step(p) /\ JmObs(i) /\ Note(i, "result differs", ModelResult(p))
 
 TNext == ((\E i \in Idx : ConsumeClean(i)) \/ ConsumeBad) /\ tid' = tid
 TSpec == TInit /\ [][TNext]_tvars
@@ -91,5 +105,6 @@ Verdict ==
     PrintT(<<"VERDICT", ToJson([tid |-> tid, bad |-> bad,
                                 res |-> [i \in 1..Traces[tid].n |-> res[i]],
                                 store |-> (pmain # 0 /\ ino[pmain].c \ {"boot"} = {W!Exp}),
-                                raced |-> raced, snapfail |-> snapfail, life |-> life])>>)
+                                raced |-> raced, snapfail |-> snapfail, life |-> life, obs |-> obs,
+                                jm |-> IF pmain # 0 THEN ino[pmain].jm ELSE "none"])>>)
 =============================================================================
